@@ -2,6 +2,9 @@ package det
 
 import (
 	"fmt"
+	"github.com/apache/yunikorn-core/pkg/common/configs"
+	"go.yaml.in/yaml/v3"
+	"strconv"
 	"strings"
 	"time"
 
@@ -39,6 +42,49 @@ func prioritiesPlain(w *world.World, leaf string) bool {
 		}
 	}
 	return true
+}
+
+// relativePriority evaluates the priority calculus for a victim leaf: the value of the ask at the deepest common
+// ancestor of both leaves (offsets added upwards from the asker's leaf, a priority fence resets the value to its
+// offset), then downwards to the victim's leaf (offsets subtracted; a priority-fenced queue makes the subtree fully
+// eligible when its offset does not exceed the value, and blocks it otherwise).
+func relativePriority(w *world.World, askLeaf, victimLeaf string, prio int64) (rel int64, fenced bool, blocked string, ok bool) {
+	up := pathOf(w, askLeaf) // leaf first
+	cur := prio
+	at := map[string]int64{}
+	for _, q := range up {
+		if q.PrioFence {
+			cur = int64(q.PrioOffset)
+		} else {
+			cur += int64(q.PrioOffset)
+		}
+		at[q.Path] = cur
+	}
+	down := pathOf(w, victimLeaf) // leaf first
+	// deepest common ancestor
+	ca := -1
+	for i, q := range down {
+		if _, on := at[q.Path]; on {
+			ca = i
+			break
+		}
+	}
+	if ca <= 0 {
+		return 0, false, "", false
+	}
+	rel = at[down[ca].Path]
+	for i := ca - 1; i >= 0; i-- {
+		q := down[i]
+		if q.PrioFence {
+			if int64(q.PrioOffset) > rel {
+				return rel, fenced, q.Path, true
+			}
+			fenced = true
+		} else {
+			rel -= int64(q.PrioOffset)
+		}
+	}
+	return rel, fenced, "", true
 }
 
 // checkC07 / checkC08: preemption victims announced in this step, judged on the pre-step world.
@@ -104,6 +150,7 @@ func (e *Engine) checkC07(st *Step) {
 	// the asker: the ask whose "triggered preemption" flag flipped in this step
 	var asker *world.Alloc
 	var askerApp *world.App
+	flipped := 0
 	for id, a := range post.Apps {
 		pa := pre.Apps[id]
 		if pa == nil {
@@ -112,8 +159,16 @@ func (e *Engine) checkC07(st *Step) {
 		for k, as := range a.Asks {
 			if pas := pa.Asks[k]; pas != nil && !pas.Triggered && as.Triggered {
 				asker, askerApp = pas, pa
+				flipped++
 			}
 		}
+	}
+	if flipped > 1 {
+		// one scheduling cycle can preempt for a reserved required-node ask and then for a queue ask: which victim
+		// belongs to which asker is not observable without reading message texts, so only the rules that do not
+		// depend on the asker are judged for this batch
+		e.obs("c07.batches_with_several_askers", 1)
+		asker, askerApp = nil, nil
 	}
 	kind := "unknown"
 	switch {
@@ -190,8 +245,22 @@ func (e *Engine) checkQueuePreemption(st *Step, a *world.Alloc, app *world.App, 
 		if !v.Res.SharesType(a.Res) {
 			e.violate("C07", "victim-shares-no-type", "", fmt.Sprintf("victim %s %s shares no resource type with the ask %s %s", v.Key, v.Res, a.Key, a.Res))
 		}
-		if plain && prioritiesPlain(pre, vleaf) && v.Prio > a.Prio {
-			e.violate("C07", "victim-outranks-asker", "", fmt.Sprintf("victim %s priority %d outranks the ask %s priority %d (no offsets or fences on either path)", v.Key, v.Prio, a.Key, a.Prio))
+		if plain && prioritiesPlain(pre, vleaf) {
+			e.obs("c07.priority_judged_plain", 1)
+			if v.Prio > a.Prio {
+				e.violate("C07", "victim-outranks-asker", "", fmt.Sprintf("victim %s priority %d outranks the ask %s priority %d (no offsets or fences on either path)", v.Key, v.Prio, a.Key, a.Prio))
+			}
+		} else if rel, fenced, blocked, ok := relativePriority(pre, leaf, vleaf, int64(a.Prio)); ok {
+			// the documented calculus: offsets are added going up from the asker's queue (a priority fence resets the
+			// value to its offset), subtracted going down to the victim's queue; a priority-fenced queue on the
+			// victim's side makes its whole subtree eligible iff its offset does not exceed the value reached there
+			e.obs("c07.priority_judged_calculus", 1)
+			switch {
+			case blocked != "":
+				e.violate("C07", "victim-behind-priority-fence", "", fmt.Sprintf("victim %s lives below the priority fence %s whose offset is above the relative priority of the ask %s there", v.Key, blocked, a.Key))
+			case !fenced && int64(v.Prio) > rel:
+				e.violate("C07", "victim-outranks-asker", "/with-offsets", fmt.Sprintf("victim %s priority %d outranks the ask %s (priority %d, relative priority %d in %s) and no priority fence applies on the victim's side", v.Key, v.Prio, a.Key, a.Prio, rel, vleaf))
+			}
 		}
 	}
 	_ = ineligibleKinds
@@ -239,12 +308,29 @@ func (e *Engine) checkQueuePreemption(st *Step, a *world.Alloc, app *world.App, 
 				continue
 			}
 			anyGuarantee = true
+			// "at the moment each victim is taken": whichever victim of this leaf was taken last, the other victims of
+			// the leaf had already been taken; the queue must still have been above its guaranteed share then. The
+			// order is unknown, so the rule asks for the existence of such a last victim (necessary condition).
+			total := res.R{}
+			for _, v := range vs {
+				total.AddTo(v.Res)
+			}
 			for t, need := range a.Res {
-				if g, ok := q.Guaranteed[t]; ok && need > 0 && q.Allocated[t]-q.Preempting[t] > g {
-					above = true
+				if need <= 0 {
+					continue
 				}
-				if _, ok := q.Guaranteed[t]; !ok && need > 0 && q.Allocated[t] > 0 {
-					above = true // the type is not guaranteed on that side
+				g, ok := q.Guaranteed[t]
+				if !ok {
+					if q.Allocated[t] > 0 {
+						above = true // the type is not guaranteed on that side
+					}
+					continue
+				}
+				net := q.Allocated[t] - q.Preempting[t]
+				for _, v := range vs {
+					if net-(total[t]-v.Res[t]) > g {
+						above = true
+					}
 				}
 			}
 		}
@@ -253,6 +339,9 @@ func (e *Engine) checkQueuePreemption(st *Step, a *world.Alloc, app *world.App, 
 		}
 		if anyGuarantee {
 			e.obs("c08.victim_queues_with_guarantee", 1)
+			if lq := pre.Queues[vleaf]; lq != nil && !lq.Preempting.IsZero() {
+				e.obs("c08.victim_queues_with_victims_in_flight", 1)
+			}
 		}
 	}
 	// effect: a node was reserved for the ask and the victims on it plus its free space cover the ask
@@ -459,9 +548,39 @@ func (e *Engine) scenarioPreemption(g *Gen, r *Rng) {
 	if len(apps) == 0 || len(nodes) == 0 {
 		return
 	}
+	// directed: the askers live in leaves that have a guarantee on their path, the nodes are filled by the others
+	guaranteedLeaf := func(leaf string) bool {
+		for _, q := range pathOf(e.Cur, leaf) {
+			if len(q.Guaranteed) > 0 {
+				return true
+			}
+		}
+		return false
+	}
+	var askApps, fillApps []string
+	for _, a := range apps {
+		wa := e.Cur.Apps[a]
+		if wa == nil {
+			continue
+		}
+		if guaranteedLeaf(wa.Queue) {
+			askApps = append(askApps, a)
+		}
+	}
+	askLeaf := ""
+	if len(askApps) > 0 && r.Chance(850) {
+		askLeaf = e.Cur.Apps[askApps[r.Intn(len(askApps))]].Queue
+	}
+	for _, a := range apps {
+		if wa := e.Cur.Apps[a]; wa != nil && wa.Queue != askLeaf {
+			fillApps = append(fillApps, a)
+		}
+	}
+	if len(fillApps) == 0 {
+		fillApps = apps
+	}
 	// fill every node to the brim with RM-bound allocations
 	for _, n := range nodes {
-		vn := e.V.Nodes[n]
 		for i := 0; i < 12; i++ {
 			cur := e.Cur.Nodes[n]
 			if cur == nil {
@@ -481,7 +600,10 @@ func (e *Engine) scenarioPreemption(g *Gen, r *Rng) {
 			if len(rs) == 0 {
 				break
 			}
-			app := apps[r.Intn(len(apps))]
+			app := fillApps[r.Intn(len(fillApps))]
+			if r.Chance(100) {
+				app = apps[r.Intn(len(apps))]
+			}
 			op := &Op{Kind: OpBound, App: app, Key: g.newKey(app), Node: n, Res: rs, Prio: int32(r.Range(0, 3))}
 			if r.Chance(80) {
 				op.ReqNode = n
@@ -489,20 +611,110 @@ func (e *Engine) scenarioPreemption(g *Gen, r *Rng) {
 			if !e.Do(op) {
 				return
 			}
-			_ = vn
 		}
 	}
-	// askers
-	for i := 0; i < r.Range(1, 3); i++ {
+	// askers, one after the other, scheduling in between without confirming anything: the victims of the first batch
+	// are still in flight when the second asker looks for victims
+	for i, n := 0, r.Range(1, 3); i < n; i++ {
 		app := apps[r.Intn(len(apps))]
+		if askLeaf != "" && r.Chance(800) {
+			var in []string
+			for _, a := range apps {
+				if wa := e.Cur.Apps[a]; wa != nil && wa.Queue == askLeaf {
+					in = append(in, a)
+				}
+			}
+			if len(in) > 0 {
+				app = in[r.Intn(len(in))]
+			}
+		}
 		op := &Op{Kind: OpAsk, App: app, Key: g.newKey(app), Res: res.R{"memory": int64(r.Range(1, 3)), "vcore": int64(r.Range(0, 2))}.Pruned(), Prio: int32(r.Range(0, 4)),
-			AgeSec: int64(r.Range(5, 120)), PreemptOther: r.Chance(850), PreemptSelf: true}
-		if r.Chance(120) {
+			AgeSec: int64(r.Range(35, 120)), PreemptOther: r.Chance(900), PreemptSelf: true}
+		if r.Chance(100) {
 			op.ReqNode = nodes[r.Intn(len(nodes))]
 		}
 		if !e.Do(op) {
 			return
 		}
+		e.Do(&Op{Kind: OpSched, N: r.Range(2, 4)})
 	}
-	e.Do(&Op{Kind: OpSched, N: 6})
+	e.Do(&Op{Kind: OpSched, N: 4})
+}
+
+// guaranteeTemplate is a small fixed-shape configuration with seeded numbers for the second-preemption scenario:
+// root.p (optional max) with two leaves that both have guaranteed resources, plus one unrelated leaf.
+func guaranteeTemplate(r *Rng) *CfgMeta {
+	g1, g2 := r.Range(2, 5), r.Range(3, 7)
+	q := func(name string, g int, props map[string]string) configs.QueueConfig {
+		qc := configs.QueueConfig{Name: name, Properties: props}
+		if g > 0 {
+			qc.Resources.Guaranteed = map[string]string{"memory": strconv.Itoa(g), "vcore": strconv.Itoa(g) + "m"}
+			if r.Chance(300) {
+				delete(qc.Resources.Guaranteed, []string{"memory", "vcore"}[r.Intn(2)])
+			}
+		}
+		return qc
+	}
+	delay := map[string]string{"preemption.delay": []string{"1s", "2s"}[r.Intn(2)]}
+	parent := configs.QueueConfig{Name: "p", Parent: true, Queues: []configs.QueueConfig{q("l1", g1, nil), q("l2", g2, delay)}}
+	if r.Chance(400) {
+		m := g1 + g2 + r.Range(0, 4)
+		parent.Resources.Max = map[string]string{"memory": strconv.Itoa(m), "vcore": strconv.Itoa(m) + "m"}
+	}
+	t := true
+	part := configs.PartitionConfig{Name: "default", Queues: []configs.QueueConfig{{Name: "root", SubmitACL: "*", Parent: true, Queues: []configs.QueueConfig{parent, q("other", 0, nil)}}}}
+	part.Preemption.Enabled = &t
+	m := &CfgMeta{Users: []string{"u1", "u2"}, Groups: []string{"g1", "g2"}, Leaves: []string{"root.p.l1", "root.p.l2", "root.other"}, FifoLeaves: []string{"root.p.l1", "root.p.l2", "root.other"}}
+	m.Conf = &configs.SchedulerConfig{Partitions: []configs.PartitionConfig{part}}
+	b, err := yaml.Marshal(m.Conf)
+	if err != nil {
+		return nil
+	}
+	if _, err := configs.LoadSchedulerConfigFromByteArray(b); err != nil {
+		return nil
+	}
+	m.YAML = string(b)
+	return m
+}
+
+// scenarioSecondPreemption: one node filled to the brim by root.p.l1, a first asker in root.p.l2 whose victims stay
+// in flight (nothing is confirmed), then a second asker: the victim queue's usage net of what is already being
+// preempted is what counts for its guarantee.
+func (e *Engine) scenarioSecondPreemption(g *Gen, r *Rng) {
+	g.nodeN++
+	node := fmt.Sprintf("n%d", g.nodeN)
+	c := int64(r.Range(8, 12))
+	if !e.Do(&Op{Kind: OpAddNode, Node: node, Res: map[string]int64{"memory": c, "vcore": c}}) {
+		return
+	}
+	mk := func(leaf string) string {
+		g.appN++
+		id := fmt.Sprintf("app%d", g.appN)
+		g.apps[id] = &gApp{ID: id, Queue: leaf, User: r.Pick(g.M.Users)}
+		e.Do(&Op{Kind: OpAddApp, App: id, Queue: leaf, User: g.apps[id].User, Groups: []string{r.Pick(g.M.Groups)}})
+		return id
+	}
+	v1, v2, a1, a2 := mk("root.p.l1"), mk("root.p.l1"), mk("root.p.l2"), mk("root.p.l2")
+	for used := int64(0); used < c; {
+		sz := int64(1)
+		if r.Chance(200) && c-used >= 2 {
+			sz = 2
+		}
+		app := []string{v1, v2}[r.Intn(2)]
+		if !e.Do(&Op{Kind: OpBound, App: app, Key: g.newKey(app), Node: node, Res: res.R{"memory": sz, "vcore": sz}, Prio: int32(r.Range(0, 1))}) {
+			return
+		}
+		used += sz
+	}
+	for i, n := 0, r.Range(2, 3); i < n && !e.stopNow(); i++ {
+		app := []string{a1, a2}[r.Intn(2)]
+		sz := int64(r.Range(1, 5))
+		if !e.Do(&Op{Kind: OpAsk, App: app, Key: g.newKey(app), Res: res.R{"memory": sz, "vcore": sz}, Prio: int32(r.Range(0, 2)), AgeSec: int64(r.Range(40, 90)), PreemptOther: true, PreemptSelf: true}) {
+			return
+		}
+		e.Do(&Op{Kind: OpSched, N: 3})
+		if r.Chance(200) && len(e.C.S.Confirms()) > 0 {
+			e.Do(&Op{Kind: OpConfirm, Idx: 0})
+		}
+	}
 }
